@@ -326,3 +326,23 @@ class Lemma:
             # vacuity guard: the hypotheses of a lemma must be satisfiable
             out.append(Obligation(f'lemma::cover.{self.name}{tag}', list(hy), _z3.BoolVal(True), expect='sat'))
         return out
+
+
+class DictOf(Spec):
+    """concrete-shape dict with spec'd leaves (e.g. **kwargs)"""
+
+    def __init__(self, shape: dict):
+        self.shape = shape
+
+    def make(self, name, ctx):
+        out = {}
+        for k, sp in self.shape.items():
+            out[k] = sp.make(f'{name}.{k}', ctx) if isinstance(sp, Spec) else sp
+        return out
+
+    def sample(self, rng):
+        from .crosscheck import sample
+        return {k: (sample(sp, rng) if isinstance(sp, Spec) else sp) for k, sp in self.shape.items()}
+
+    def describe(self):
+        return 'dict{' + ', '.join(f'{k}: {sp.describe() if isinstance(sp, Spec) else sp!r}' for k, sp in self.shape.items()) + '}'
